@@ -904,6 +904,9 @@ def cat(tensors, dim=0):
 
     if tensors[0].is_ttm:
         raise InvalidArguments("Not implemented for tensor matrices.")
+    if not isinstance(dim, int) or dim < 0 or dim >= len(tensors[0].N):
+        raise InvalidArguments(
+            "The concatenation dimension must be a valid mode position.")
     Rs = [tensors[0].R]
 
     for i in range(1, len(tensors)):
